@@ -40,6 +40,8 @@ ITEMS = [
  ("fP", [], "c"), ("fQ", [], 7), ("fP", ["cased"], "D"), ("fxf", [], "v"),
  # numerals as strings (type conversion): plain, signed / leading zero, beside a non-numeral, under a wildcard modifier
  ("n1", [], "42"), ("n2", [], ["7", "-3", "08"]), ("n3", [], ["5", "x*"]), ("n4", ["contains"], "12"),
+ # negated keywords (the empty field with neq): one value, several, with a further modifier
+ ("", ["neq"], "nkw"), ("", ["neq"], ["nk1", "nk2"]), ("", ["contains", "neq"], "nkc"),
 ]
 KW = [["foo", "ba*r"], [1], ["single"], ["k1", 2]]
 out = ["----------------------------- MODULE RuleItems -----------------------------",
